@@ -15,6 +15,7 @@ import (
 	"io"
 	"os"
 	"path/filepath"
+	"runtime"
 	"strconv"
 	"syscall"
 
@@ -74,6 +75,8 @@ func payload(r *prng, size int) []byte {
 }
 
 func main() {
+	// all I/O of the workload on one OS thread: strace counts system calls per thread
+	runtime.LockOSThread()
 	if len(os.Args) != 4 {
 		fmt.Fprintln(os.Stderr, "usage: verifc06 <root> <seed> <nops>")
 		os.Exit(2)
